@@ -26,7 +26,14 @@ func (ex *Exec) call(instr ssa.Instruction, cc *ssa.CallCommon, pc *Term, st *St
 		if callee.Pkg != nil && pkgKeyOf(callee) != ex.pkg || callee.Pkg == nil {
 			full := callee.String()
 			ex.vc.Extern[full] = true
-			return ex.callExtern(instr, full, cc, args, pc, st)
+			r := ex.callExtern(instr, full, cc, args, pc, st)
+			ex.callN["ext:"+name]++
+			if ex.callRes == nil {
+				ex.callRes = map[string]Value{}
+			}
+			ex.callRes[fmt.Sprintf("%s#%d", name, ex.callN["ext:"+name])] = r
+			ex.pointDirectives(fmt.Sprintf("after %s#%d", name, ex.callN["ext:"+name]), instr.Block(), pc, st, nil)
+			return r
 		}
 		key := FuncKey(callee)
 		ex.callN[key]++
@@ -57,7 +64,12 @@ func (ex *Exec) call(instr ssa.Instruction, cc *ssa.CallCommon, pc *Term, st *St
 		if ex.callRes == nil {
 			ex.callRes = map[string]Value{}
 		}
-		ex.callRes[fmt.Sprintf("%s#%d", name, ord)] = res
+		pk := strings.NewReplacer("(", "", ")", "", "*", "").Replace(key)
+		ex.callRes[fmt.Sprintf("%s#%d", pk, ord)] = res
+		if _, dup := ex.callRes[fmt.Sprintf("%s#%d", name, ord)]; !dup || pk == name {
+			ex.callRes[fmt.Sprintf("%s#%d", name, ord)] = res
+		}
+		ex.pointDirectives(fmt.Sprintf("after %s#%d", pk, ord), instr.Block(), pc, st, nil)
 		return res
 	}
 	ex.unsupported("call of %T", cc.Value)
@@ -126,7 +138,22 @@ func (ex *Exec) callModular(callee *ssa.Function, cfc *FuncContract, args []Valu
 		res = &TupleV{Elems: rvals}
 	}
 	post := &Ctx{ex: ex, fn: callee, fc: cfc, st: st, old: pre, params: ctx.params, results: rvals, pc: pc}
+	var only map[string]bool
+	if ex.fc != nil {
+		for _, d := range ex.fc.Of("callee_posts") {
+			f := strings.Fields(d.Text)
+			if len(f) > 0 && f[0] == FuncKey(callee) {
+				only = map[string]bool{}
+				for _, l := range f[1:] {
+					only[l] = true
+				}
+			}
+		}
+	}
 	for _, d := range cfc.Of("ensures") {
+		if only != nil && !only[d.Label] {
+			continue
+		}
 		ex.vc.Assume(Implies(pc, post.evalBool(d.Text)))
 	}
 	if st.allocs != nil {
@@ -399,5 +426,43 @@ func (ex *Exec) runDeferred(d *ssa.Defer, pc *Term, st *State) {
 	ex.callExtern(d, full, &d.Call, args, pc, st)
 	for a, v := range saved {
 		ex.env[a] = v
+	}
+}
+
+// pointDirectives handles "lemma[..] <point> <expr>" (assert, then assume) and
+// "assume_def[..] <point> (<f>_def args)" (instance of a defining equation of the specification) at a
+// program point.
+func (ex *Exec) pointDirectives(point string, blk *ssa.BasicBlock, pc *Term, st *State, loop *loopInfo) {
+	if ex.fc == nil {
+		return
+	}
+	for _, d := range ex.fc.Dirs {
+		if d.Kind != "lemma" && d.Kind != "assume_def" {
+			continue
+		}
+		if !strings.HasPrefix(d.Text, point+" ") {
+			continue
+		}
+		text := strings.TrimSpace(d.Text[len(point):])
+		li := loop
+		if li == nil && blk != nil {
+			li = ex.inLoop[blk]
+		}
+		ctx := &Ctx{ex: ex, fn: ex.fn, fc: ex.fc, st: st, old: ex.entry, params: ex.paramMap(), pc: pc, loop: li}
+		t := ctx.evalBool(text)
+		if d.Kind == "assume_def" {
+			sx, _ := parseSX(text)
+			for sx != nil && sx.Head() == "let" && len(sx.List) == 3 {
+				sx = sx.List[2]
+			}
+			if sx == nil || !strings.HasSuffix(sx.Head(), "_def") {
+				ex.unsupported("assume_def only admits instances of defining equations (<f>_def ...): %s", text)
+			}
+			ex.vc.DefInst = append(ex.vc.DefInst, sx.Head())
+			ex.vc.Assume(Implies(pc, t))
+			continue
+		}
+		ex.vc.Oblige(ex.obName("lemma", d.Label), "lemma", Implies(pc, t))
+		ex.vc.Assume(Implies(pc, t))
 	}
 }
